@@ -181,6 +181,26 @@ func (h *E2E) EchoB(a *[]byte, r *[]byte) error {
 	*r = out
 	return err
 }
+// EchoBCtx / EchoPCtx: handlers that take a context (the server's context-buffer mode applies to
+// them) under body codecs whose decoded values alias their input.
+func (h *E2E) EchoBCtx(ctx context.Context, a *[]byte, r *[]byte) error {
+	out, err := h.handle("E2E.EchoBCtx", *a)
+	*r = out
+	return err
+}
+func (h *E2E) EchoPCtx(ctx context.Context, a *PbMsg, r *PbMsg) error {
+	out, err := h.handle("E2E.EchoPCtx", a.Data)
+	r.Data = out
+	return err
+}
+
+// EchoBSame answers with the very slice it was given (and keeps it): what the library does with the
+// reply bytes after encoding them must not touch memory the handler still owns.
+func (h *E2E) EchoBSame(a *[]byte, r *[]byte) error {
+	_, err := h.handle("E2E.EchoBSame", *a)
+	*r = *a
+	return err
+}
 func (h *E2E) EchoP(a *PbMsg, r *PbMsg) error {
 	out, err := h.handle("E2E.EchoP", a.Data)
 	r.Data = out
@@ -354,13 +374,24 @@ func genE2E(r *prng.R, tier string) (e2eCfg, []e2eOp) {
 				o.Form = []string{"call", "call", "go", "ctx", "rt"}[r.Intn(5)]
 				o.Method = []string{"E2E.Echo", "E2E.Echo", "E2E.EchoCtx", "E2E.EchoRet", "E2E.Nope"}[r.Intn(5)]
 				if m := bodyMethod(c.Body); m != "" && o.Method != "E2E.Nope" {
-					o.Method = m
+					// context-taking and slice-echoing variants under the aliasing body codecs
+					switch {
+					case o.Method == "E2E.EchoCtx":
+						o.Method = m + "Ctx"
+					case m == "E2E.EchoB" && o.Method == "E2E.EchoRet":
+						o.Method = "E2E.EchoBSame"
+					default:
+						o.Method = m
+					}
 				}
 				si := r.Intn(9)
 				if r.Chance(1, 12) {
 					si = r.Intn(len(sizes))
 				}
 				o.Size = sizes[si]
+				if o.Method == "E2E.EchoBSame" && r.Chance(1, 3) {
+					o.Size = sizes[9+r.Intn(4)] // 64 KiB and above: larger than the pooled write buffer
+				}
 				o.ReplyLen = []int{0, 1, 16, 127, 128, 1000, 65536, 70000}[r.Intn(6+2*b2i(r.Chance(1, 10)))]
 				if r.Chance(1, 6) {
 					o.Kind, o.ErrLen = kFail, []int{8, 20, 127, 128, 300, 5000}[r.Intn(6)]
@@ -525,6 +556,11 @@ func runE2E(cfg e2eCfg, ops []e2eOp) *e2eRun {
 	for _, e := range srv.execs {
 		if !cfg.SNoCopy && digest(e.kept) != e.dig {
 			run.problems = append(run.problems, connVerdict{"C11", "handler-args-stable", "C11/handler-args-mutated/" + cfg.Body, fmt.Sprintf("argument bytes retained by the handler of call %d changed after later traffic", e.id)})
+			if cfg.SCtxBuf {
+				// C12: the server's context-buffer mode is a performance option; what a handler holds must
+				// not depend on it (the same workload without the option keeps the arguments intact)
+				run.problems = append(run.problems, connVerdict{"C12", "server-mode-keeps-arguments", "C12/context-buffer-mode-changes-arguments/" + cfg.Body, fmt.Sprintf("with SetContextBuffer(true) the argument bytes held by the handler of call %d changed under later traffic", e.id)})
+			}
 			break
 		}
 	}
@@ -751,7 +787,11 @@ func doE2EOp(cfg e2eCfg, conn *rpc.Conn, rt rpc.RoundTripper, client *rpc.Client
 	if err == nil {
 		rb := get()
 		out.reply, out.rdig = rb, digest(rb)
-		if bytes.Equal(rb, handlerH(o.Method, data)) {
+		want := handlerH(o.Method, data)
+		if o.Method == "E2E.EchoBSame" {
+			want = data
+		}
+		if bytes.Equal(rb, want) {
 			cls = "ok"
 		} else {
 			cls = "wrong-reply:" + digest(rb)
